@@ -90,6 +90,13 @@ func fieldOf(info *types.Info, e ast.Expr) *types.Var {
 		v, _ := sel.Obj().(*types.Var)
 		return v
 	}
+	// a selector rebuilt by substParams (helper expansion) has no Selections entry, but its Sel
+	// identifier is the original, resolved one
+	if _, ok := info.Selections[se]; !ok {
+		if v, ok := info.Uses[se.Sel].(*types.Var); ok && v.IsField() {
+			return v
+		}
+	}
 	return nil
 }
 
